@@ -42,7 +42,7 @@ ASSUMPTIONS = [
 
 def run(ctx):
     t = ctx.tape
-    w = t.weighted([4, 4, 2, 2, 2, 2, 2], "workload")
+    w = t.weighted([4, 4, 2, 2, 2, 2, 2, 1], "workload")
     if w == 0:
         common.t1_pool(ctx, "proc")
     elif w == 1:
@@ -55,8 +55,10 @@ def run(ctx):
         doe.p3_parallel_fd(ctx)
     elif w == 5:
         doe.p4_doe_shared_hdf5_cache(ctx)
-    else:
+    elif w == 6:
         common.p5b_one_discipline_many_inputs(ctx)
+    else:
+        common.p6_execute_helper(ctx)
 
 
 def evidence_extra(pm):
